@@ -8,8 +8,11 @@ every section is back in service and no controller lists a failed section
 `Lemmas/ControlLiveL.lean`).  Proved: the normal configuration is a fixed point of a quiet
 increment, for every configuration and step; a running sectioning timer reaches zero after exactly ⌈T/dt⌉ quiet control passes
 (closed form), and the parent timer handed to a microgrid elapses in step with it.
-NOT proved (stated): `ReturnsToNormal` — from every reachable state without failed lines the
-normal configuration (`isNormal`) is reached within the stated number of quiet increments.
+Proved (`returns_to_normal`): from every reachable state without failed lines (manual control, any
+history before) the normal configuration (`isNormal`) is reached within `⌈T/dt⌉ + 2` increments —
+fourth invariant `Lemmas/ControlGL.lean` (every outage and open switch has a reason), timer bound and
+flag invariants and the analysis of calm increments in `Lemmas/ControlCalmL.lean`.  Under ICT-based
+control the bound depends on the communication history and is decided by the check.
 (`not_back_to_initial_state`: the stronger "back to the initial state" is false — remaining outage
 times of healthy lines of a flagged section keep the added sectioning time.)  The check
 decides it on every generated history (model and implementation) by running the quiet tail.
@@ -18,6 +21,8 @@ import Relsad.Model.Control
 import Relsad.Lemmas.ControlL
 import Relsad.Props.C05
 import Relsad.Lemmas.ControlLiveL
+import Relsad.Lemmas.ControlCalmL
+import Mathlib.Data.Rat.Floor
 import Mathlib.Algebra.Order.Field.Rat
 import Mathlib.Tactic.Linarith
 import Mathlib.Tactic.Ring
@@ -26,7 +31,7 @@ import Mathlib.Tactic.Positivity
 namespace Relsad.C06
 open Relsad.Control
 
-/-- full statement (not proved): bounded return to the normal configuration (`isNormal`: every breaker and
+/-- full statement (proved below, `returns_to_normal`): bounded return to the normal configuration (`isNormal`: every breaker and
 disconnector closed, every line and section in service, nothing failed, timers run out, no failed-section entries) -/
 def ReturnsToNormal (C : Cfg) (dt : ℚ) (bound : ℕ) : Prop :=
   ∀ s, C05.Reach C s → s.failed.all (!·) = true → ∃ k, k ≤ bound ∧ isNormal C ((fun s => step C s dt)^[k] s) = true
@@ -210,5 +215,123 @@ theorem all_repaired_all_in_service (C : Cfg) (hC : wfB C = true) (s : St) (hs :
   have h0 := b.inv2.listed n hn k hk
   rw [h1 n hn k (b.inv.fs n hn k hk)] at h0
   exact absurd h0 (by simp)
+
+/-! ### return to normal within the sectioning time (manual control, all reachable states) -/
+
+theorem reach_quad (C : Cfg) (w : WF C) (w2 : WF2 C) : ∀ s, C05.Reach C s → Quad C s := by
+  intro s hs
+  induction hs with
+  | init => exact Quad.init w
+  | fail s l rep _ hl _ ih => exact ih.afterFail w w2 l hl rep
+  | step s dt _ _ ih => exact ih.step w w2 dt
+
+theorem reach_tb (C : Cfg) (w2 : WF2 C) (hT : 0 ≤ C.T) : ∀ s, C05.Reach C s → TB C s := by
+  intro s hs
+  induction hs with
+  | init => exact TB.init C hT
+  | fail s l rep _ _ _ ih => exact ih.afterFail l rep
+  | step s dt _ hdt ih => exact ih.step w2 hT dt (le_of_lt hdt)
+
+theorem reach_nf (C : Cfg) (w : WF C) (w2 : WF2 C) : ∀ s, C05.Reach C s → NF C s := by
+  intro s hs
+  induction hs with
+  | init => exact NF.init C
+  | fail s l rep _ hl _ ih => exact ih.afterFail w l hl rep
+  | step s dt _ _ ih => exact ih.step w w2 dt
+
+theorem reach_iter (C : Cfg) (s : St) (dt : ℚ) (hdt : 0 < dt) (hs : C05.Reach C s) (k : ℕ) :
+    C05.Reach C ((fun s => step C s dt)^[k] s) := by
+  induction k with
+  | zero => exact hs
+  | succ k ih => rw [Function.iterate_succ_apply']; exact .step _ dt ih hdt
+
+/-- a reachable state without failed lines is calm: every section in service, nothing listed, no network flagged,
+no check pending, and no timer above the manual sectioning time -/
+theorem reach_calm (C : Cfg) (hC : wfB C = true) (hC2 : wfB2 C = true) (hT : 0 ≤ C.T) (s : St) (hs : C05.Reach C s)
+    (hrep : s.failed.all (!·) = true) : Run C s C.T C.T := by
+  have w := WF.of_wfB C hC
+  have w2 := WF2.of_wfB2 C hC2
+  have hsA := reach_to_reachA C s hs
+  have hf : ∀ l, gb s.failed l = false := gb_false_of_all_not _ hrep
+  obtain ⟨a1, a2⟩ := all_repaired_all_in_service C hC s hsA hf
+  have tb := reach_tb C w2 hT s hs
+  have nf := reach_nf C w w2 s hs
+  have q := reach_quad C w w2 s hs
+  refine ⟨⟨fun l _ => hf l, ?_, a2, ?_, reach_check_down C s hsA, tb.tlen, tb.plen, q.triple.both.inv.sz⟩, tb.dist, fun m => ⟨tb.pTimer m, tb.timer m⟩⟩
+  · intro k hk
+    obtain ⟨n, hn, hkn⟩ := w2.sec_owned k hk
+    exact a1 n hn k hkn
+  · intro n
+    by_cases hn : n < C.nets.length
+    · cases hx : gb s.netFailed n
+      · rfl
+      · obtain ⟨l, _, hl⟩ := nf.why n hn hx
+        rw [hf l] at hl; exact absurd hl (by simp)
+    · unfold gb
+      rw [List.getD_eq_getElem?_getD, List.getElem?_eq_none (by rw [nf.nflen]; exact Nat.le_of_not_lt hn)]; rfl
+
+/-- **C06, return to normal.**  From every reachable state of every well-formed configuration under manual control in
+which no line is failed (any history of faults, repairs and increments before), the normal configuration — every
+breaker and disconnector closed, every line and section in service, timers at rest, nothing listed or flagged — is
+reached after at most `⌈T/dt⌉ + 2` further increments of length `dt`. -/
+theorem returns_to_normal (C : Cfg) (hC : wfB C = true) (hC2 : wfB2 C = true) (hT : 0 ≤ C.T) (dt : ℚ) (hdt : 0 < dt) :
+    ReturnsToNormal C dt (⌈C.T / dt⌉₊ + 2) := by
+  intro s hs hrep
+  have w := WF.of_wfB C hC
+  have w2 := WF2.of_wfB2 C hC2
+  refine ⟨⌈C.T / dt⌉₊ + 2, le_refl _, ?_⟩
+  set K := ⌈C.T / dt⌉₊ with hK
+  have hTK : C.T ≤ (K : ℚ) * dt := by
+    have := Nat.le_ceil (C.T / dt)
+    rw [div_le_iff₀ hdt] at this
+    exact this
+  have r0 := reach_calm C hC hC2 hT s hs hrep
+  have h0 : Run C s (leftAfter C.T dt 0) (leftAfter C.T dt 0 + dt) := by
+    refine r0.weaken ?_ ?_
+    · unfold leftAfter; simp
+    · unfold leftAfter; simp only [Nat.cast_zero, zero_mul, sub_zero]; have := le_max_left C.T 0; linarith
+  have rK := calm_iter w w2 s dt hdt h0 K
+  have hq : leftAfter C.T dt K = 0 := by
+    unfold leftAfter
+    exact max_eq_right (by linarith)
+  rw [hq, zero_add] at rK
+  obtain ⟨rF, closed⟩ := calm_finish w w2 _ dt hdt rK
+  have e : (fun s => step C s dt)^[K + 2] s = step C (step C ((fun s => step C s dt)^[K] s) dt) dt := by
+    rw [Function.iterate_succ_apply', Function.iterate_succ_apply']
+  rw [e]
+  set z := step C (step C ((fun s => step C s dt)^[K] s) dt) dt with hz
+  have hzr : C05.Reach C z := by
+    have := reach_iter C s dt hdt hs (K + 2)
+    rw [e] at this; exact this
+  have q := reach_quad C w w2 z hzr
+  have nf := reach_nf C w w2 z hzr
+  have sz := q.triple.both.inv.sz
+  obtain ⟨dcl, lin⟩ := q.g.all_back rF.calm.secs w closed w2
+  have h1 : z.cbOpen.all (!·) = true := all_not_of_gb _ (fun i hi => closed i (by rw [← sz.cbOpen]; exact hi))
+  have h2 : z.dOpen.all (!·) = true := all_not_of_gb _ (fun i hi => dcl i (by rw [← q.g.dlen]; exact hi))
+  have h3 : z.conn.all id = true := all_id_of_gb _ (fun i hi => lin i (by rw [← sz.conn]; exact hi))
+  have h4 : z.secConn.all id = true := all_id_of_gb _ (fun i hi => rF.calm.secs i (by rw [← sz.secConn]; exact hi))
+  have h5 : z.failed.all (!·) = true := all_not_of_gb _ (fun i hi => rF.calm.nofail i (by rw [← nf.flen]; exact hi))
+  have h6 : z.timer.all (· ≤ 0) = true := all_le_of_gr _ (fun i => (rF.bd i).2)
+  have h7 : z.pTimer.all (· ≤ 0) = true := all_le_of_gr _ (fun i => (rF.bd i).1)
+  have h8 : z.failedSecs.all (·.isEmpty) = true := all_empty_of_getD _ (fun i hi => rF.calm.nofs i (by rw [← sz.failedSecs]; exact hi))
+  have h9 : z.netFailed.all (!·) = true := all_not_of_gb _ (fun i _ => rF.calm.nonf i)
+  unfold isNormal
+  simp only [Bool.and_eq_true]
+  exact ⟨⟨⟨⟨⟨⟨⟨⟨h1, h2⟩, h3⟩, h4⟩, h5⟩, h6⟩, h7⟩, h8⟩, h9⟩
+
+/-- the hypotheses are satisfiable on a concrete system: feeder line L0 with the breaker, L1 behind a disconnector in
+its own section, a fault on L1 repaired after 2 h, sectioning time 1 h, 1 h increments.  Two increments after the fault
+the disconnector is open and L1 still failed (not normal); one increment later the line is repaired and the system is
+back to normal, within the bound `⌈1/1⌉ + 2 = 3` of the theorem. -/
+example :
+    let C : Cfg := { lines := [⟨0, some 0, [], 0⟩, ⟨0, none, [0], 1⟩], disconLine := [1], cbLine := [0],
+                     secs := [⟨[0], [.breaker 0, .discon 0]⟩, ⟨[1], [.discon 0]⟩], nets := [⟨0, 0, [0, 1], [0, 1], [], none, none⟩], T := 1 }
+    wfB C = true ∧ wfB2 C = true ∧
+    isNormal C (((fun s => step C s 1)^[2]) (lineFail C (St.init C) 1 2)) = false ∧
+    (((fun s => step C s 1)^[3]) (lineFail C (St.init C) 1 2)).failed.all (!·) = true ∧
+    isNormal C (((fun s => step C s 1)^[3]) (lineFail C (St.init C) 1 2)) = true := by
+  intro C
+  refine ⟨by decide +kernel, by decide +kernel, by decide +kernel, by decide +kernel, by decide +kernel⟩
 
 end Relsad.C06
